@@ -318,6 +318,13 @@ theorem step_inv {s : St} (h : Inv s) (op : Op) : Inv (step s op).1 := by
   | ins n w f => exact insertData_inv _ h n w f
   | find n c m ord => exact findData_inv ord h n c m
   | cap k => exact setCap_inv h k
+  | mgmt c hf hm =>
+    simp only [step, csConfig]
+    split
+    · exact h
+    · cases c with
+      | none => exact h
+      | some k => exact setCap_inv h k
   | adv d => exact advance_inv h d
 
 theorem run_inv {s : St} (h : Inv s) (ops : List Op) : Inv (run s ops) := by
